@@ -196,6 +196,7 @@ package limit
 //@   ensures[C08] update_delegated: old(l.probeCount) + 1 < int(old(l.probeJitter) * float64(l.probeMultipler) * old(l.estimatedLimit)) && old(vegasBase(l)) != 0.0 && float64(rtt) >= old(vegasBase(l)) ==> ncalls("(*limit.VegasLimit).updateEstimatedLimit") == 1 && callrecv("(*limit.VegasLimit).updateEstimatedLimit", 0) == l && callarg("(*limit.VegasLimit).updateEstimatedLimit", 0, 1) == rtt && callarg("(*limit.VegasLimit).updateEstimatedLimit", 0, 2) == inFlight && callarg("(*limit.VegasLimit).updateEstimatedLimit", 0, 3) == didDrop
 //@   ensures[C15] baseline_bound: vegasBase(l) == 0.0 || vegasBase(l) <= float64(rtt)
 //@   ensures[C15] baseline_observed: vegasBase(l) == float64(rtt) || vegasBase(l) == old(vegasBase(l))
+//@   ensures[C15] probe_rebaselines: old(l.probeCount) + 1 >= int(old(l.probeJitter) * float64(l.probeMultipler) * old(l.estimatedLimit)) ==> vegasBase(l) == float64(rtt) && l.probeCount == 0 && l.estimatedLimit == old(l.estimatedLimit)
 //@   ensures[C07,C15] probe_resets: ref(l.rttNoLoad) != ref(old(l.rttNoLoad)) ==> l.probeCount == 0 && vegasBase(l) == float64(rtt) && fresh(ref(l.rttNoLoad))
 //@   ensures[C07,C15] probe_recurs: l.probeCount == 0 || (l.probeCount == old(l.probeCount) + 1 && float64(l.probeCount) < l.probeJitter * float64(l.probeMultipler) * old(l.estimatedLimit))
 //@   ensures[C16] notified: int(l.estimatedLimit) != int(old(l.estimatedLimit)) ==> allDelivered(l.listeners, int(l.estimatedLimit))
